@@ -118,9 +118,22 @@ class G:
 LITS = {"int": "7", "bool": "true", "str": '"s"', "arr": "[1,2]", "tup": '(1,"a")', "empty": "[]", "sarr": '["a"]', "req": "request", "tgt": "request.target"}
 
 
+# witnesses of the recorded soundness holes (Coq: hole_* in C08Proofs.v / MiluSoundLet.v) and programs of the sound
+# let fragment right next to them
+HOLE_WITNESSES = [
+    '(if false then (let a = 1 in let b = a+0 in b) else (let a = "s" in let b = a+0 in b)) + 1',
+    'let h = [request.target][0] in h =~ "x"',
+    'let t = (request.listener, 1) in let request = 5 in t.0 =~ "x"',
+    '(let a = 1 in [a])[0]',
+    'let a = 1 in a + 1',
+    'let host = request.target.host in host == "x" || host =~ "y"',
+    'let a = 2 in let b = a * 3 in let a = b + 1 in a + b',
+]
+
+
 def exhaustive(r):
     """every operator / builtin over every combination of literal operand kinds (depth 2)"""
-    out = []
+    out = list(HOLE_WITNESSES)
     kinds = list(LITS.values())
     for op in c09.BIN:
         for a, b in itertools.product(kinds, kinds):
@@ -170,13 +183,16 @@ REQS = [
 ]
 
 
-def known_class(src):
-    """syntactic classes of the two recorded soundness holes"""
+def known_class(src, in_sound_let_fragment=False):
+    """classes of the recorded soundness holes.  A program with `let` inside the fragment wf_sl of
+    soundness_scalar_let belongs to none of them: for it the theorem says the failure cannot happen"""
     tags = []
     if "[]" in src.replace(" ", ""):
         tags.append("C08-any-empty-array")
-    if "let" in src and ("[" in src or "," in src):
-        tags.append("C08-lazy-aggregate-scope")
+    if "let" in src and not in_sound_let_fragment:
+        if "[" in src or "," in src:
+            tags.append("C08-lazy-aggregate-scope")
+        tags.append("C08-let-outside-sound-fragment")
     return tags
 
 
@@ -221,6 +237,10 @@ def run(tier, seed, replay=None):
     cases = uniq
     lines = [c[1] for c in cases]
     impl, mod = run_pair(driver, model, lines)
+    # which programs with `let` lie in the fragment wf_sl of the soundness theorem (MiluSoundLet.v)
+    let_srcs = sorted({meta["src"] for (_, _, meta) in cases if "let" in meta["src"] and "`" not in meta["src"]})
+    sl_out = run_model(model, ["milu_wfsl %s" % (s_.encode().hex() or "-") for s_ in let_srcs]) if let_srcs else []
+    in_sl = {s_ for s_, o in zip(let_srcs, sl_out) if o == "SL"}
     dist, accepted, classes = {}, 0, {}
     for (kind, line, meta), oi, om in zip(cases, impl, mod):
         dist[kind] = dist.get(kind, 0) + 1
@@ -246,13 +266,15 @@ def run(tier, seed, replay=None):
         if bad:
             rep.fail("C08 oracle: %r: %s" % (src[:120], bad),
                      {"kind": "failing-input", "cases": [dict(kind=kind, line=line, meta=meta)], "source": src, "observed": oi, "model": om},
-                     known_class(src) if "panicked" not in bad else ())
+                     known_class(src, src in in_sl) if "panicked" not in bad else ())
     # link between the theorems' hypothesis wf_lf and what the parser produces: every parsed
     # program without `let` and without `[]` must pass the executable test wf_lfb
     lf = [(kind, meta["src"]) for (kind, line, meta), oi in zip(cases, impl)
           if oi != "SYNTAX" and "let" not in meta["src"] and "[]" not in meta["src"].replace(" ", "") and "`" not in meta["src"]]
     wf_out = run_model(model, ["milu_wf %s" % (s.encode().hex() or "-") for _, s in lf])
     n_wf = sum(1 for o in wf_out if o == "WF")
+    rep.coverage["let_programs"] = len(let_srcs)
+    rep.coverage["let_programs_in_sound_fragment"] = len(in_sl)
     not_wf = [s for (_, s), o in zip(lf, wf_out) if o == "NOT-WF"]
     if not_wf and not rep.violations:
         rep.broken_obligation("C08: a parsed let-free program is outside wf_lf, the hypothesis of the soundness theorems (%d programs)" % len(not_wf), not_wf[0])
